@@ -252,16 +252,16 @@ MValue snapshot_value(cif_value_tp *v) {
             const UChar **keys = NULL;
             int rc = cif_value_get_keys(v, &keys);
             if (rc != CIF_OK || !keys) VIOLATE("snapshot", "keys", "get_keys -> %s", rc_name(rc));
+            struct KeysGuard { const UChar **&k; ~KeysGuard() { if (k) { lib_free(k); k = NULL; } } } guard{keys};   // released also when a nested snapshot throws
             size_t n = 0, cnt = 0;
             if (cif_value_get_element_count(v, &cnt) != CIF_OK) cnt = (size_t) -1;
             for (const UChar **k = keys; *k; ++k) {
                 ++n;
                 cif_value_tp *e = NULL;
                 rc = cif_value_get_item_by_key(v, *k, &e);
-                if (rc != CIF_OK || !e) { lib_free(keys); VIOLATE("snapshot", "bykey", "get_item_by_key(%s) -> %s for an enumerated key", u8(*k).c_str(), rc_name(rc)); }
+                if (rc != CIF_OK || !e) { std::string ks = u8(*k); VIOLATE("snapshot", "bykey", "get_item_by_key(%s) -> %s for an enumerated key", ks.c_str(), rc_name(rc)); }
                 m.entries.push_back({from_uchar(*k), snapshot_value(e)});
             }
-            lib_free(keys);
             if (n != cnt) VIOLATE("snapshot", "keycount", "table enumerates %zu keys but reports %zu elements", n, cnt);
             break;
         }
